@@ -164,6 +164,14 @@ theorem read_one_group (ls : List TLine) (toks : List Tok) (rem : Option (List T
   have := readFile_spec ls 0 [] rfl toks rem h
   simpa [Balanced] using this
 
+/-- **…and only one.** `\read` stops at the first line end at which the braces balance:
+after any smaller positive number `k` of the lines it consumed a brace is still open.
+(`ls.length - remLen rem` is the number of lines consumed.) -/
+theorem read_minimal (ls : List TLine) (toks : List Tok) (rem : Option (List TLine))
+    (h : readFile ls 0 [] = .ok toks rem) (k : Nat) (hk : 0 < k) (hlt : k < ls.length - remLen rem) :
+    ∃ e, depthAfter (ls.take k).flatten 0 = some (e + 1) := by
+  simpa using readFile_minimal ls 0 [] rfl toks rem h k hk hlt
+
 /-- Non-vacuity: `1{` / `2` / `3}` / `4` gives `1{ 2 3} ` and leaves the last line. -/
 example : readFile [[.chr 49, .bg, .sp], [.chr 50, .sp], [.chr 51, .eg, .sp], [.chr 52, .sp]] 0 []
     = .ok [.chr 49, .bg, .sp, .chr 50, .sp, .chr 51, .eg, .sp] (some [[.chr 52, .sp]]) := by decide
@@ -189,6 +197,25 @@ theorem ifeof_after_appended_line_partial (ls : List TLine) (toks : List Tok) (r
     (h : readFile ls 0 [] = .ok toks (some rem)) :
     texReadFile ls 0 [] = .ok toks (some rem) :=
   readFile_tex_open ls 0 [] toks rem h
+
+/-- **Every interleaving, partial** (known finding C19-b). For every script of `\openin`,
+`\read`, `\ifeof`, `\closein` and macro uses on the 16 streams, every file system and
+terminal: if along the model's run no `\read` leaves its stream without a further real line
+(or fails) and no empty file is opened (`safeRun`, decidable), the model and TeX
+(§485–§486) end in the same state — same output (so every `\ifeof` answered alike), same
+streams, same macros, same status. -/
+theorem interleavings_agree_with_tex_partial (rfs : List (Nat × List TLine)) (term : List TLine)
+    (ops : List Op) (h : safeRun rfs (initR term) ops = true) :
+    runOps false rfs term ops = runOps true rfs term ops :=
+  foldl_agree rfs ops (initR term) (initR_noEmpty term) h
+
+/-- Non-vacuity: two streams on a three-line file, interleaved reads, an `\ifeof`, a close. -/
+example :
+    let f : List TLine := [[.chr 49, .sp], [.chr 50, .bg, .sp], [.chr 51, .eg, .sp], [.chr 52, .sp]]
+    safeRun [(0, f)] (initR [])
+      [.openin 3 0, .openin 15 0, .read 3 100, .ifeof 3, .read 15 101, .read 15 100, .use 100,
+       .closein 3, .ifeof 3, .ifeof 15] = true := by
+  decide +kernel
 
 /-- The empty file: both deliver `\par` and close the stream. -/
 theorem read_empty_file : readFile (ensureNewline []) 0 [] = texReadFile [] 0 [] := by decide
